@@ -575,11 +575,15 @@ def stripInOrder (fc : Facts) (x : Ext) (s1 : St) (order : List String) : Outcom
         pure (st', acc.2 || rep)) (s1, false)
   pure (reload fc s2, rep)
 
-/-- `stripOAIGen(opts)` for the iteration order in which the keys are listed: the state after it
-    and whether a pointer or a complex inline schema was (re)introduced -/
+/-- the order in which `stripOAIGen` visits the entries of `newRefs`: the keys sorted in descending order
+    (`sort.Sort(sort.Reverse(sort.StringSlice(keys)))`), so that a key nested in another one comes first -/
+def stripOrder (s : St) : List String :=
+  (s.ctx.newRefs.map (·.1)).mergeSort fun a b => strLe b a
+
+/-- `stripOAIGen(opts)`: the state after it and whether a pointer or a complex inline schema was (re)introduced -/
 def stripOAIGen (fc : Facts) (x : Ext) (s : St) : Outcome (St × Bool) :=
   let s1 := stripPrepare s
-  stripInOrder fc x s1 (s1.ctx.newRefs.map (·.1))
+  stripInOrder fc x s1 (stripOrder s1)
 
 /-! ### importReferences (file references; URLs with a host are not modelled) -/
 
